@@ -135,9 +135,13 @@ PollS(c) ==
        /\ hist' = Hist(ev')
        /\ n' = n + 1 /\ UNCHANGED now
 
+\* non-contributing messages: other channel-voice types whose data bytes look like contributing
+\* controllers, the neighbours of the contributing controller numbers, bank select, sustain, the
+\* channel-mode controllers (all sound off, reset all controllers, all notes off, poly on) with the
+\* values that have a meaning of their own, and system messages
 OtherMsgs(c) == {<<s, d1, 127>> : s \in {128 + c, 144 + c, 192 + c, 224 + c}, d1 \in {6, 98}}
-                \cup {CC(c, k, 127) : k \in {5, 7, 37, 39, 95, 102, 0, 64}}
-                \cup {<<248, 6, 0>>, <<242, 98, 38>>, <<255, 6, 6>>}
+                \cup {CC(c, k, v) : k \in {5, 7, 37, 39, 95, 102, 0, 32, 64, 120, 121, 123, 127}, v \in {0, 127}}
+                \cup {<<248, 6, 0>>, <<242, 98, 38>>, <<255, 6, 6>>, <<240, 99, 6>>, <<254, 38, 6>>}
 
 TickSteps == IF Emitting THEN (IF TO = Inf \/ TO = 0 THEN {0, 1, 2, 3} ELSE {0, 1, TO - 1, TO, TO + 1, 3 * TO})
              ELSE IF TO = Inf \/ TO = 0 THEN {1} ELSE {1, TO}
